@@ -69,7 +69,7 @@ fn compare_spend(i: usize, g: &OwnedSpendConditions, m: &MSpend, mempool: bool, 
     Ok(())
 }
 
-fn compare(g: &OwnedSpendBundleConditions, m: &MBundle, mempool: bool, validate_sig: bool, ctx: &mut Ctx) -> CaseResult {
+fn compare(g: &OwnedSpendBundleConditions, m: &MBundle, mempool: bool, validate_sig: bool, parse_level: bool, ctx: &mut Ctx) -> CaseResult {
     vensure_eq!(g.spends.len(), m.spends.len(), "C01:summary:spend-count", "number of spends");
     for (i, (gs, ms)) in g.spends.iter().zip(m.spends.iter()).enumerate() {
         compare_spend(i, gs, ms, mempool, ctx)?;
@@ -83,7 +83,9 @@ fn compare(g: &OwnedSpendBundleConditions, m: &MBundle, mempool: bool, validate_
     vensure_eq!(g.removal_amount, m.removal_amount, "C01:summary:removal-amount", "removal_amount");
     vensure_eq!(g.addition_amount, m.addition_amount, "C01:summary:addition-amount", "addition_amount");
     vensure_eq!(g.condition_cost, m.condition_cost, "C01:summary:condition-cost", "condition_cost");
-    vensure_eq!(g.cost, m.condition_cost, "C01:summary:cost", "cost (no CLVM/byte cost at this entry point)");
+    if parse_level {
+        vensure_eq!(g.cost, m.condition_cost, "C01:summary:cost", "cost (no CLVM/byte cost at this entry point)");
+    }
     vensure_eq!(g.validated_signature, validate_sig, "C01:summary:validated-signature", "validated_signature");
     Ok(())
 }
@@ -190,7 +192,7 @@ pub fn case_parse(bytes: &[u8], ctx: &mut Ctx) -> CaseResult {
         (Outcome::Accept(m), Ok(conds)) => {
             ctx.label("verdict:accept");
             let owned = OwnedSpendBundleConditions::from(&a, conds);
-            compare(&owned, m, mempool, validate_sig, ctx)?;
+            compare(&owned, m, mempool, validate_sig, true, ctx)?;
             if m.spends.iter().any(|s| s.condition_cost > 0 || !s.create_coin.is_empty()) || b.n_conds > 0 {
                 nontrivial = true;
             }
@@ -230,6 +232,92 @@ pub fn case_parse(bytes: &[u8], ctx: &mut Ctx) -> CaseResult {
     Ok(())
 }
 
+/// the same differential at program level: bundles as CoinSpends through
+/// run_spendbundle (mempool visitor) and run_block_generator2 (block visitor),
+/// with identity puzzles or with *eval* puzzles whose solutions compute the
+/// condition list at run time (atoms produced by substr/concat/+/- are heap
+/// atoms, not the canonical nil / small-integer nodes)
+pub fn case_program(bytes: &[u8], ctx: &mut Ctx) -> CaseResult {
+    use chia_consensus::run_block_generator::run_block_generator2;
+    use chia_consensus::solution_generator::solution_generator;
+    use chia_consensus::spendbundle_conditions::run_spendbundle;
+    let mut s = Src::new(bytes);
+    let flag_bits = s.below(16) as u8;
+    let computed = s.chance(170);
+    let mut cfg = GenCfg::standard();
+    cfg.shape_mutations = false;
+    cfg.huge = false;
+    cfg.careful_rate = 150;
+    cfg.eval_puzzles = computed;
+    let mut b = condgen::gen_bundle(&mut s, &cfg);
+    let coin_spends = if computed {
+        vcore::proglevel::coin_spends_computed(&mut b, &mut s)
+    } else {
+        vcore::proglevel::coin_spends(&b)
+    };
+    ctx.ran_dry(s.ran_dry());
+    let flags = flags_from_bits(flag_bits) | ConsensusFlags::DONT_VALIDATE_SIGNATURE;
+    let constants = condgen::model_constants(&TEST_CONSTANTS);
+    let max_cost = u64::MAX / 4;
+    ctx.label(if computed { "puzzles:eval-computed-conditions" } else { "puzzles:identity" });
+    ctx.label(format!("flags:{flag_bits:04b}"));
+    ctx.render(|| format!("flags={} computed={computed} bundle tree={}", flag_names(flags), b.tree.render(b.root)));
+    let mut nontrivial = false;
+
+    // ---- mempool path: spends in the offered order, mempool visitor
+    let want_mempool = mc::evaluate(
+        &b.tree,
+        b.root,
+        &mc::Params { flags: flags.bits(), mempool_visitor: true, constants: &constants, key_ok: &condgen::key_ok, max_cost },
+    );
+    let bundle = chia_protocol::SpendBundle::new(coin_spends.clone(), Signature::default());
+    let mut a = Allocator::new();
+    match (&want_mempool, run_spendbundle(&mut a, &bundle, max_cost, flags, &TEST_CONSTANTS)) {
+        (Outcome::Accept(m), Ok((conds, _))) => {
+            ctx.label("run_spendbundle:accept");
+            let owned = OwnedSpendBundleConditions::from(&a, conds);
+            compare(&owned, m, true, false, false, ctx)?;
+            nontrivial = b.n_conds > 0;
+        }
+        (Outcome::Reject(why, _), Err(_)) => ctx.label(format!("run_spendbundle:reject:{why}")),
+        (Outcome::Accept(_), Err(e)) => vfail!("C01:program:run_spendbundle-rejected-but-rules-accept", "run_spendbundle returned {e:?} but every rule is satisfied"),
+        (Outcome::Reject(why, _), Ok(_)) => vfail!(format!("C01:program:run_spendbundle-accepted-but-rules-reject:{why}"), "run_spendbundle accepted, but the rules reject: {why}"),
+    }
+
+    // ---- block path: the generator lists the spends in reverse order, block visitor
+    let rev_root = {
+        let nodes: Vec<vcore::gentree::Tid> = b.spends.iter().rev().map(|sp| sp.node).collect();
+        let sl = b.tree.list(&nodes);
+        let nil = b.tree.nil();
+        b.tree.pair(sl, nil)
+    };
+    let want_block = mc::evaluate(
+        &b.tree,
+        rev_root,
+        &mc::Params { flags: flags.bits(), mempool_visitor: false, constants: &constants, key_ok: &condgen::key_ok, max_cost },
+    );
+    let generator = solution_generator(coin_spends.iter().map(|cs| (cs.coin, cs.puzzle_reveal.as_slice(), cs.solution.as_slice()))).expect("solution_generator");
+    let refs: Vec<Vec<u8>> = vec![];
+    match (&want_block, run_block_generator2(&generator, &refs, max_cost, flags, &Signature::default(), None, &TEST_CONSTANTS)) {
+        (Outcome::Accept(m), Ok((a2, conds))) => {
+            ctx.label("rbg2:accept");
+            let owned = OwnedSpendBundleConditions::from(&a2, conds);
+            compare(&owned, m, false, false, false, ctx)?;
+            nontrivial = nontrivial || b.n_conds > 0;
+        }
+        (Outcome::Reject(why, _), Err(_)) => ctx.label(format!("rbg2:reject:{why}")),
+        (Outcome::Accept(_), Err(e)) => vfail!("C01:program:rbg2-rejected-but-rules-accept", "run_block_generator2 returned {e:?} but every rule is satisfied"),
+        (Outcome::Reject(why, _), Ok(_)) => vfail!(format!("C01:program:rbg2-accepted-but-rules-reject:{why}"), "run_block_generator2 accepted, but the rules reject: {why}"),
+    }
+    if nontrivial {
+        let mut f = Fnv::new();
+        f.write(&generator);
+        f.write(&[flag_bits, u8::from(computed)]);
+        ctx.nontrivial(f.finish());
+    }
+    Ok(())
+}
+
 pub fn property() -> Property {
     Property {
         id: "C01",
@@ -247,6 +335,15 @@ pub fn property() -> Property {
             inflight: false,
             min_nontrivial: 100_000,
             required_labels: &["verdict:accept", "visitor:mempool", "visitor:block", "signature:validated"],
+        },
+        SubCheck {
+            name: "program-vs-model",
+            about: "run_spendbundle and run_block_generator2 on the same bundles as CoinSpends (identity puzzles, or eval puzzles computing the conditions at run time) vs the reference model",
+            source: Source::Random { len: 1536, quick: 150_000, thorough: 4_000_000 },
+            run: case_program,
+            inflight: false,
+            min_nontrivial: 20_000,
+            required_labels: &["run_spendbundle:accept", "rbg2:accept", "puzzles:eval-computed-conditions", "puzzles:identity"],
         }],
         death_is_violation: false,
     }
